@@ -76,3 +76,4 @@ pub fn level(prop: &str) -> &'static str {
         _ => "exploration",
     }
 }
+
